@@ -106,6 +106,8 @@ func Freeze() {
 
 var cur atomic.Pointer[Sched]
 
+var freeMu sync.Mutex
+
 func me() (*Sched, *G) {
 	s := cur.Load()
 	if s == nil {
@@ -161,8 +163,11 @@ func Pt(kind string) { PointE(kind, nil) }
 // Atomic runs f with scheduling points suppressed, so that an oracle sees one
 // instantaneous state.
 func Atomic(f func()) {
-	_, g := me()
-	if g == nil {
+	sch, g := me()
+	if g == nil || sch.cfg.Sequential {
+		// free-running goroutine (race pass): serialise the harness's bookkeeping for real
+		freeMu.Lock()
+		defer freeMu.Unlock()
 		f()
 		return
 	}
